@@ -19,11 +19,11 @@ Add(i) ==
   LET amt == Len(pairs) + 1 IN
   /\ pairs' = Append(pairs, <<i, amt>>)
   /\ IF i \in mask
-     THEN /\ data' = [data EXCEPT ![did[i] + 1] = Append(@, amt)]       \* *get_mut(id) += value
+     THEN /\ data' = [data EXCEPT ![did[i] + 1] = "(" \o @ \o "+" \o ToString(amt) \o ")"]   \* *get_mut(id) += value
           /\ UNCHANGED <<mask, eid, did>>
      ELSE /\ did' = [did EXCEPT ![i] = Len(data)]                       \* inner.insert(id, value); mask.add(id)
           /\ eid' = Append(eid, i)
-          /\ data' = Append(data, <<amt>>)
+          /\ data' = Append(data, ToString(amt))
           /\ mask' = mask \cup {i}
   /\ (Emit => PrintT(<<"SCRIPT", ToJson(Append(pairs, <<i, amt>>))>>))
 
